@@ -190,6 +190,9 @@ namespace chaiscript {
 
       infile.read(buffer, static_cast<std::streamsize>(bytes_needed));
 
+      // a file shorter than a BOM leaves the stream in a failed state, in which seekg and read do nothing
+      infile.clear();
+
       if ((buffer[0] == '\xef') && (buffer[1] == '\xbb') && (buffer[2] == '\xbf')) {
         infile.seekg(3);
         return true;
